@@ -41,4 +41,18 @@ theorem C12_normalize_no_dot_segments (input : Bytes) : ∀ s ∈ segs (normaliz
 
 example : normalizePath (b!"/a/./b/../c/.") = (b!"/a/c") ∧ segs (b!"/a/c") = [[], (b!"a"), (b!"c")] := by decide
 
+/-- **C12 (unchanged by normalising again)**: dot-segment removal leaves a path without "." / ".." segments exactly as it is, so
+    removing dot segments twice is the same as once - for every input - and the pipeline's result is a fixed point of the remover
+    for every raw path and every decoder configuration. (The decoding stages are not idempotent and the property does not ask for
+    that: "%2541" decodes to "%41", which decodes to "A".) -/
+theorem C12_dot_free_fixed (p : Bytes) (h : DotFree p) : normalizePath p = p := normalizePath_of_dotFree p h
+
+theorem C12_dot_removal_idempotent (p : Bytes) : normalizePath (normalizePath p) = normalizePath p := normalizePath_idem p
+
+theorem C12_pipeline_fixed_point (cfg : Gen.DecoderCfg) (path : Bytes) (flags : Nat) (status : Int) :
+    normalizePath (pipeline cfg path flags status).1 = (pipeline cfg path flags status).1 :=
+  normalizePath_of_dotFree _ (C12_no_dot_segments cfg path flags status)
+
+example : normalizePath (b!"/a/../../b/./c/..") = (b!"/b") ∧ normalizePath (b!"/b") = (b!"/b") := by decide
+
 end Htp.C12
